@@ -56,8 +56,8 @@ def c03(tier, seed, only=None):
             continue
         jobs.append(job(s, dict(rerun=1, rerun_mode="tasks", extra_outcomes=xo, horizon=60,
                                 dev=3 if tier == "quick" else 4), mons))
-    jobs += _ctrl_jobs(tier, mons, dict(hold=1, pause=1, resume=1, horizon=60, resume_only_at_rest=False,
-                                        dev=3 if tier == "quick" else 4), families=("F2",))
+    jobs += _interim_jobs(tier, mons, dict(hold=1, pause=1, resume=2, horizon=60, resume_only_at_rest=False,
+                                           dev=4 if tier == "quick" else 5))
     for s in gen.f3_all():
         dev = gen.f3_dev(s, tier)
         jobs.append(job(s, dict(pause=1, resume=1, cancel=1, dev=dev, horizon=150), mons))
@@ -295,10 +295,8 @@ def c02(tier, seed, only=None):
     jobs = _ctrl_jobs(tier, mons, dict(pause=1, resume=1, cancel=1, horizon=60, resume_only_at_rest=False))
     jobs += _interim_jobs(tier, mons, dict(pause=1, resume=1, cancel=1, horizon=60))
     # an action that goes pending (inquiry) while other branches still have work; resume while it is pending
-    for s in gen.f2_all(tier):
-        if not gen.is_big(s):
-            jobs.append(job(s, dict(hold=1, pause=1, resume=1, horizon=60, resume_only_at_rest=False,
-                                    dev=3 if tier == "quick" else 4), mons))
+    jobs += _interim_jobs(tier, mons, dict(hold=1, pause=1, resume=2, horizon=60, resume_only_at_rest=False,
+                                           dev=4 if tier == "quick" else 5))
     jobs = _filter(jobs, only)
     results = runner.run_jobs(jobs, seed=seed)
     rule = (
@@ -333,7 +331,9 @@ def c10(tier, seed, only=None):
     jobs += _interim_jobs(tier, mons, dict(cancel=1, horizon=60))
     # the last in-flight action answers a cancel with pending (held) or fails under a retry policy
     for s in gen.f6_publish(tier) + gen.f5_all(tier):
-        if not gen.is_big(s):
+        if not gen.is_big(s) and (tier != "quick" or s.name in (
+                "F6/fj-one", "F6/chain-overwrite", "F6/decide-publish", "F5/retry-c1-dflt-seq", "F5/retry-c1-C-seq",
+                "F5/retry-items", "F5/retry-on-join")):
             jobs.append(job(s, dict(cancel=1, pause=1, hold=1, render=True, horizon=60, dev=3 if tier == "quick" else 4),
                             mons))
     jobs = _filter(jobs, only)
@@ -686,7 +686,7 @@ def c19(tier, seed, only=None):
     for site in lits:
         extra_v.append({"property": "C19", "kind": "set_literal_not_intercepted", "sig": {"site": site},
                         "detail": "", "scenario": {"name": site, "wf": {}}, "history": [], "confirmed": True})
-    shim_cases = [dict(x) for x in scns]
+    shim_cases = [dict(x, per_site_cap=(4 if tier == "quick" else None)) for x in scns]
     sres = sc.run_cases("vx.c19.check_setorder", shim_cases, seed=seed)
     runs = sum(r.get("runs", 0) for r in sres)
     points = sum(r.get("choice_points", 0) for r in sres)
@@ -706,8 +706,9 @@ def c19(tier, seed, only=None):
         "different PYTHONHASHSEED compute digests of inspect(), compose().serialize() and a canonical conducted "
         "history (every offer and persisted state) for %d definitions, all digests must agree; (b) a set "
         "subclass injected into the engine modules makes the iteration order of every iterated set a choice "
-        "point: every single deviation from the canonical order (all permutations for size <= 3) is replayed "
-        "and the same artefacts must be identical" % (len(seeds), len(scns))
+        "point: every single deviation from the canonical order (all permutations for size <= 3; quick tier: the "
+        "first 4 iterations of every code site x set size per definition) is replayed and the same artefacts "
+        "must be identical" % (len(seeds), len(scns))
     )
     return runner.finish("C19", tier, seed, MC, results, rule, t0, mons,
                          extra_cov={"hash_seeds": seeds, "seed_comparisons": n_cmp, "set_order_choice_points": points,
@@ -726,8 +727,8 @@ REGISTRY.update({"C19": c19})
 def _interim_jobs(tier, mons, base_cfg):
     """Small definitions with one or two intermediate status reports per history."""
     jobs = []
-    names = ("F2/seq2", "F2/handler-noop-par", "F2/fanin-m2-jall-SS-l1", "F4/items-n2-k2-alone", "F4/items-n3-k2-alone",
-             "F4/items-n2-knone-then", "F5/retry-c1-dflt-seq")
+    names = ("F2/seq2", "F2/handler-noop-par", "F2/fanin-m2-jall-SS-l1", "F2/decide", "F4/items-n2-k2-alone",
+             "F4/items-n3-k2-alone", "F4/items-n2-knone-then", "F5/retry-c1-dflt-seq")
     for s in gen.f2_all(tier) + gen.f4_all(tier) + gen.f5_all(tier):
         if s.name in names or (tier != "quick" and not gen.is_big(s)):
             cfg = dict(base_cfg)
